@@ -13,4 +13,6 @@ def rules(ctx, tier):
         lambda: pathops.rule_canon(ctx),
         lambda: mutation.rule_triple(ctx),
         lambda: identity.rule_ident(ctx),
+        lambda: mutation.rule_esc(ctx),
+        lambda: mutation.rule_mut(ctx),
     ]
